@@ -45,7 +45,7 @@ func init() {
 		stubs: []string{"none (single simulated task; the scheduler only supplies the lock model and the step bound)"},
 		runs: []engineRun{{
 			spec: engineSpec{name: "c13"}, label: "c13", faultFree: true,
-			quickRuns: 4000, quickDL: 60 * time.Second, thorRuns: 400000, thorDL: 20 * time.Minute,
+			quickRuns: 8000, quickDL: 70 * time.Second, thorRuns: 400000, thorDL: 20 * time.Minute,
 			description: "native build with lock model; histories from the tape",
 		}},
 	}
